@@ -176,17 +176,76 @@ pub fn path_wild_case(rng: &mut Rng) -> Case {
     let mut segs = vec![b"pw".to_vec(), rh.clone()];
     segs.extend(raws.iter().cloned());
     let target = extra_slashes(rng, &segs, &mut tags);
-    let sp: Spec = vec![("h".into(), Kind::Scalar(th, Pres::Req)), ("rest".into(), Kind::Seq)];
+    let sp: Spec = vec![("h".into(), Kind::Scalar(th, Pres::Req)), ("rest".into(), Kind::Seq(Sty::Str))];
     let coq_in = format!(
         "{} {} (Some {})",
         g_spec(&sp),
         g_ws(&[("h".into(), Ok(rh)), ("rest".into(), Err(raws))]),
-        g_list(&[Fv::One(h), Fv::Seq(rest)], g_fv)
+        g_list(&[Fv::One(h), Fv::Seq(rest.into_iter().map(Sv::Str).collect())], g_fv)
     );
     Case {
         ctor: "CPath".into(),
         group: "path",
         ep: "pw".into(),
+        method: "GET".into(),
+        target,
+        ct: None,
+        body: None,
+        framing: Framing::ContentLength,
+        marker: None,
+        coq_in,
+        valid: true,
+        tags,
+        nontrivial: true,
+    }
+}
+
+/// the typed wildcards: `Vec<Color>`, `Vec<Uuid>`, `Vec<String>` alone, and
+/// `Vec<char>` / `Vec<Color>` behind a typed head
+pub const TYPED_WILD: [(&str, &str, Sty, bool); 5] = [
+    ("pwt_enum", "colors", Sty::Enum, false),
+    ("pwt_uuid", "ids", Sty::Uuid, false),
+    ("pwt_str", "words", Sty::Str, false),
+    ("pht_char", "chars", Sty::Char, true),
+    ("pht_enum", "hc", Sty::Enum, true),
+];
+
+pub fn path_wild_typed_case(rng: &mut Rng, which: usize) -> Case {
+    let (ep, lit, t, head) = TYPED_WILD[which % TYPED_WILD.len()];
+    let mut tags = vec![format!("path:wildcard-typed-{}", ep)];
+    let th = Sty::Int { signed: false, bits: 16 };
+    let n = *rng.pick(&[0usize, 1, 1, 2, 3, 4, 6]);
+    tags.push(format!("wildcard:{}-segments", n));
+    let mut segs = vec![lit.as_bytes().to_vec()];
+    let mut ws: Vec<(String, Result<Vec<u8>, Vec<Vec<u8>>>)> = vec![];
+    let mut vals = vec![];
+    let mut sp: Spec = vec![];
+    if head {
+        let h = gen_value(rng, th, true);
+        let rh = enc_value_segment(rng, &h, &mut tags);
+        segs.push(rh.clone());
+        ws.push(("h".into(), Ok(rh)));
+        vals.push(Fv::One(h));
+        sp.push(("h".into(), Kind::Scalar(th, Pres::Req)));
+    }
+    let mut elems = vec![];
+    let mut raws = vec![];
+    for _ in 0..n {
+        let v = gen_value(rng, t, true);
+        tag_value(t, &v, &mut tags);
+        raws.push(enc_value_segment(rng, &v, &mut tags));
+        elems.push(v);
+    }
+    segs.extend(raws.iter().cloned());
+    ws.push(("rest".into(), Err(raws)));
+    vals.push(Fv::Seq(elems));
+    sp.push(("rest".into(), Kind::Seq(t)));
+    let target = extra_slashes(rng, &segs, &mut tags);
+    let coq_in = format!("{} {} (Some {})", g_spec(&sp), g_ws(&ws), g_list(&vals, g_fv));
+    Case {
+        ctor: "CPath".into(),
+        group: "path",
+        ep: ep.into(),
         method: "GET".into(),
         target,
         ct: None,
@@ -579,6 +638,7 @@ fn sv_json(rng: &mut Rng, v: &Sv, tags: &mut Vec<String>) -> String {
         Sv::Char(c) => json_string(rng, &char::from_u32(*c).unwrap().to_string(), tags),
         Sv::Int(d) => d.clone(),
         Sv::Enum(n) => json_string(rng, n, tags),
+        Sv::Uuid(h) => json_string(rng, h, tags),
     }
 }
 
@@ -644,7 +704,7 @@ pub fn bj_intended(v: &BodyVals) -> Vec<(String, Fv)> {
         ("c", Fv::One(v.c.clone())),
         ("e", Fv::One(v.e.clone())),
         ("o", Fv::Opt(v.o.clone())),
-        ("l", Fv::Nums(v.l.iter().map(|x| x.to_string()).collect())),
+        ("l", Fv::Seq(v.l.iter().map(|x| Sv::Int(x.to_string())).collect())),
         ("d", Fv::One(v.d.clone().unwrap_or(Sv::Int("0".into())))),
     ])
 }
@@ -1044,6 +1104,9 @@ pub fn gen_all(server: &Server, seed: u64, thorough: bool, out: &mut dyn Write) 
     for _ in 0..20 * mul {
         cases.push(path_opt_case(&mut rng));
         cases.push(query_lossy_case(&mut rng));
+    }
+    for i in 0..100 * mul {
+        cases.push(path_wild_typed_case(&mut rng, i));
     }
     for _ in 0..110 * mul {
         cases.push(form_case(&mut rng));
